@@ -856,6 +856,198 @@ GRAD_PATTERN = [
 ]
 
 
+def unit_conv_expnts_locality(ctx):
+    """get_convolution_expnts_from_expnts: the output (convolved) shells of atom ia, degree l are the ladder exponents below gbuf times THAT shell's own largest
+    input exponent — a function of (ladder, gbuf, shell (ia, l)) alone, so relabelling the atoms permutes the per-atom blocks and changes nothing else.
+    Checked for concrete rational ladders / exponents with distinct windows per atom and per degree, every ordering of the atoms (bounded)."""
+    LM = "ciderpress.dft.lcao_convolutions"
+    it = ctx.interp
+    mod = it.load_module(LM)
+    fq = [LM + ":get_convolution_expnts_from_expnts"]
+    mod.ns["gto_norm"] = Builtin("gto_norm", lambda l, e: np.array([tm.mk_fn("gtonorm", tm.lift(int(l)), tm.lift(x)) for x in np.asarray(e, dtype=object).reshape(-1)], dtype=object))
+    ladder = [Q(1, 4), Q(1, 2), Q(1), Q(2), Q(4), Q(8), Q(16)]
+    # atom -> per-degree input exponents (largest first or not: the code takes the max)
+    atoms = {"A": [[Q(3), Q(1, 3)], [Q(1, 2)]], "B": [[Q(1, 5)]], "C": [[Q(7), Q(9)], [Q(5, 2), Q(1)], [Q(1, 8)]]}
+    for gbuf in (Q(2), Q(3, 2)):
+        for order in itertools.permutations(sorted(atoms)):
+            atom2l0, lmaxs, gamma_loc, all_exps = [0], [], [0], []
+            for a in order:
+                for l, ex in enumerate(atoms[a]):
+                    gamma_loc.append(gamma_loc[-1] + len(ex))
+                    all_exps += ex
+                atom2l0.append(len(gamma_loc) - 1)
+                lmaxs.append(len(atoms[a]) - 1)
+            try:
+                out = it.call(mod.ns["get_convolution_expnts_from_expnts"], [np.array(ladder, dtype=object), np.array(atom2l0), np.array(lmaxs), np.array(gamma_loc), np.array(all_exps, dtype=object)], {"gbuf": gbuf})
+            except (PyRaise, Unsupported) as e:
+                ctx.undecided("conv-expnts[gbuf=%s,%s] runs" % (gbuf, "".join(order)), str(e)[:200], fq)
+                continue
+            a2l, lm, gl, coefs, exps = out
+            ok, detail = True, ""
+            pos_ = 0
+            for k, a in enumerate(order):
+                for l, ex in enumerate(atoms[a]):
+                    want = [g for g in ladder if g < max(ex) * gbuf]
+                    lo, hi = int(gl[int(a2l[k]) + l]), int(gl[int(a2l[k]) + l + 1])
+                    got = [Q(x) if not isinstance(x, tm.T) else x for x in list(exps[lo:hi])]
+                    gotc = list(coefs[lo:hi])
+                    wantc = [tm.mk_fn("gtonorm", tm.lift(l), tm.lift(g)) for g in want]
+                    if got != want or lo != pos_ or len(gotc) != len(wantc) or any(tm.lift(x) is not y for x, y in zip(gotc, wantc)):
+                        ok = False
+                        detail = "atom %s (position %d) degree %d: got %s want %s" % (a, k, l, got, want)
+                    pos_ = hi
+            ctx.bounded("conv-expnts[gbuf=%s, atom order %s]: every (atom, degree) block = ladder exponents below gbuf * its own largest exponent" % (gbuf, "".join(order)), ok,
+                        "three atoms with lmax 1, 0, 2, 7-rung ladder, all 6 orders", detail, witness={"order": "".join(order), "gbuf": str(gbuf)}, replay=replay_conv_expnts(order, gbuf))
+
+
+def replay_conv_expnts(order, gbuf):
+    def replay(wit):
+        from pyvc import native
+        native.install_shim()
+        from ciderpress.dft.lcao_convolutions import get_convolution_expnts_from_expnts
+        ladder = np.array([0.25, 0.5, 1, 2, 4, 8, 16.0])
+        atoms = {"A": [[3.0, 1 / 3.0], [0.5]], "B": [[0.2]], "C": [[7.0, 9.0], [2.5, 1.0], [0.125]]}
+        atom2l0, lmaxs, gamma_loc, all_exps = [0], [], [0], []
+        for a in order:
+            for ex in atoms[a]:
+                gamma_loc.append(gamma_loc[-1] + len(ex))
+                all_exps += ex
+            atom2l0.append(len(gamma_loc) - 1)
+            lmaxs.append(len(atoms[a]) - 1)
+        a2l, lm, gl, coefs, exps = get_convolution_expnts_from_expnts(ladder, np.array(atom2l0), np.array(lmaxs), np.array(gamma_loc), np.array(all_exps), gbuf=float(gbuf))
+        bad = []
+        for k, a in enumerate(order):
+            for l, ex in enumerate(atoms[a]):
+                want = [g for g in ladder if g < max(ex) * float(gbuf)]
+                got = list(exps[gl[a2l[k] + l]:gl[a2l[k] + l + 1]])
+                if got != want:
+                    bad.append({"atom": a, "position": k, "l": l, "got": [float(x) for x in got], "want": [float(x) for x in want]})
+        return {"reproduced": bool(bad), "mismatching_blocks": bad[:4]}
+    return replay
+
+
+def unit_sdmx_atom_layout(ctx):
+    """The (r - R_A) factor of the SDMX l=1 terms: SDMXcontract_ao_to_bas_l1(_bwd) reads the nuclear coordinates as three blocks of natm doubles
+    (atomx[ia], atomx[natm + ia], atomx[2 natm + ia]) and the grid coordinates as three blocks of ngrids; EXXSphGenerator._contract_ao_to_bas_helper
+    must hand over memory in exactly that layout, so that atom ia is given ITS OWN coordinates whatever the number and order of the atoms
+    (covariance under translation / rotation / relabelling of the l=1 features rests on it).
+      C side  (engine C)   every read of atomx is at ia + c*natm, of gridx at g + c*ngrids, c in {0, 1, 2}
+      Python side          memory of the pointer passed as atomx:  mem[c*natm + ia] = mol.atom_coords()[ia, c];  as gridx:  mem[c*ngrids + g] = coords[g, c]"""
+    from contracts import c10
+    rel = "mod_cider/fast_sdmx.c"
+    it = ctx.interp
+    fqc = ["lib/%s:SDMXcontract_ao_to_bas_l1" % rel, "lib/%s:SDMXcontract_ao_to_bas_l1_bwd" % rel]
+    for fn in ("SDMXcontract_ao_to_bas_l1", "SDMXcontract_ao_to_bas_l1_bwd"):
+        try:
+            sy, args = c10.summarise(rel, fn)
+        except CUnsupported as e:
+            ctx.undecided("%s summarised" % fn, str(e)[:200], fqc)
+            continue
+        for arr, blk in (("atomx", args["natm"]), ("gridx", args["ngrids"])):
+            rds = oblig._dedupe_l([e for e in sy.events if e.kind == "r" and e.arr.name == arr])
+            nfc = NF()
+
+            def same(x, y):
+                try:
+                    return nfc.equal(tm.lift(x), tm.lift(y))
+                except NFError:
+                    return False
+            comps = set()
+            ok = False
+            for base in rds:
+                cls = {}
+                for e in rds:
+                    for cc in range(3):
+                        if same(e.idx, tm.lift(base.idx) + cc * blk):
+                            cls[id(e)] = cc
+                if len(cls) == len(rds) and set(cls.values()) == {0, 1, 2}:
+                    ok, comps = True, {0, 1, 2}
+                    break
+            ctx.holds("%s reads %s as three blocks of %s (component c at offset c*%s)" % (fn, arr, tm.show(blk, 20), tm.show(blk, 20)), ok and comps == {0, 1, 2},
+                      "components seen %s" % sorted(comps), fqc)
+    # Python side
+    SX = "ciderpress.pyscf.sdmx"
+    mod = it.load_module(SX)
+    fq = [SX + ":EXXSphGenerator._contract_ao_to_bas_helper"]
+    for natm in (2, 3):
+        ng = NS + 1
+        R = sym_array("R", (natm, 3))
+        coords = sym_array("r", (ng, 3))
+        mol = mkobj(mod, "_Mol", natm=natm, nbas=natm, _atm=np.zeros((natm, 6), dtype=object), _bas=np.zeros((natm, 8), dtype=object), _env=np.zeros((4,), dtype=object))
+        mol.fields["atom_coords"] = Builtin("mol.atom_coords", lambda unit="Bohr": R.copy())
+        mod.ns["_get_ylm_atom_loc"] = Builtin("_get_ylm_atom_loc", lambda m_: np.arange(natm + 1, dtype=object) * 4)
+        mod.ns["_get_rf_loc"] = Builtin("_get_rf_loc", lambda m_: np.arange(natm + 1, dtype=object))
+        for bwd in (False, True):
+            seen = []
+            libc = mod.ns["libcider"]
+            for cname in ("SDMXcontract_ao_to_bas_l1", "SDMXcontract_ao_to_bas_l1_bwd"):
+                it.externals["%s.%s" % (libc.name, cname)] = (lambda cname: lambda interp, *a: seen.append((cname, a)))(cname)
+            gen = Obj(mod.ns["EXXSphGenerator"])
+            gen.fields["plan"] = mkobj(mod, "_Plan", settings=mkobj(mod, "_Settings", n1terms=1))
+            b0 = sym_array("b0", (7, natm, ng))
+            c0 = sym_array("c0", (natm, ng))
+            ylm = sym_array("ylm", (4, 4 * natm, ng))
+            tag = "helper[natm=%d,%s]" % (natm, "bwd" if bwd else "fwd")
+            try:
+                it.call_method(gen, "_contract_ao_to_bas_helper", [mol, b0, c0, (0, natm), np.arange(natm + 1, dtype=object), coords.copy()], {"ylm": ylm, "bwd": bwd})
+            except (PyRaise, Unsupported) as e:
+                ctx.undecided("%s runs" % tag, str(e)[:200], fq)
+                continue
+            want = "SDMXcontract_ao_to_bas_l1_bwd" if bwd else "SDMXcontract_ao_to_bas_l1"
+            ctx.holds("%s calls %s once" % (tag, want), len(seen) == 1 and seen[0][0] == want, str([x[0] for x in seen]), fq)
+            if len(seen) != 1:
+                continue
+            a = seen[0][1]
+            # C prototype: (ngrids, vbas, ylm_vlg, ao, shls_slice, ao_loc, ylm_atom_loc, atm, natm, bas, nbas, env, gridx, atomx, nrf, rf_loc)
+            gx, ax = a[12], a[13]
+            mem = lambda p: list(np.asarray(p.arr, dtype=object).ravel(order="K")) if hasattr(p, "arr") else None
+            mg, ma = mem(gx), mem(ax)
+            ok_a = ma is not None and len(ma) == 3 * natm and all(tm.lift(ma[c_ * natm + ia]) is tm.lift(R[ia, c_]) for ia in range(natm) for c_ in range(3))
+            ok_g = mg is not None and len(mg) == 3 * ng and all(tm.lift(mg[c_ * ng + g]) is tm.lift(coords[g, c_]) for g in range(ng) for c_ in range(3))
+            ctx.holds("%s: the memory passed as atomx holds component c of atom ia at c*natm + ia" % tag, ok_a, "memory order: %s" % [tm.show(tm.lift(x), 12) for x in (ma or [])][:9], fq,
+                      replay=replay_sdmx_atom_layout())
+            ctx.holds("%s: the memory passed as gridx holds component c of point g at c*ngrids + g" % tag, ok_g, "", fq)
+            ctx.holds("%s: natm and ngrids passed are those of the arrays" % tag, int(a[8]) == natm and int(a[0]) == ng, "%s %s" % (a[8], a[0]), fq)
+
+
+def replay_sdmx_atom_layout():
+    def replay(wit):
+        from pyvc import native
+        native.install_shim()
+        import ciderpress.pyscf.sdmx as SX
+        got = {}
+
+        class Spy(object):
+            def __call__(self, *a):
+                import ctypes
+                natm = a[8].value
+                got["mem"] = np.ctypeslib.as_array(ctypes.cast(a[13], ctypes.POINTER(ctypes.c_double)), shape=(3 * natm,)).copy()
+        R = np.array([[0.1, 0.2, 0.3], [1.1, 1.2, 1.3], [2.1, 2.2, 2.3]])
+
+        class Mol(object):
+            natm, nbas = 3, 3
+            _atm, _bas, _env = np.zeros((3, 6), dtype=np.int32), np.zeros((3, 8), dtype=np.int32), np.zeros(4)
+
+            def atom_coords(self, unit="Bohr"):
+                return R.copy()
+        old = (SX.libcider.SDMXcontract_ao_to_bas_l1, SX._get_ylm_atom_loc, SX._get_rf_loc)
+        lib = type("L", (), {"SDMXcontract_ao_to_bas_l1": Spy(), "SDMXcontract_ao_to_bas_l1_bwd": Spy()})()
+        SX_lib = SX.libcider
+        try:
+            SX.libcider = lib
+            SX._get_ylm_atom_loc = lambda m: np.arange(4, dtype=np.int32) * 4
+            SX._get_rf_loc = lambda m: np.arange(4, dtype=np.int32)
+            g = SX.EXXSphGenerator.__new__(SX.EXXSphGenerator)
+            g.plan = type("P", (), {"settings": type("S", (), {"n1terms": 1})()})()
+            g._contract_ao_to_bas_helper(Mol(), np.zeros((7, 3, 4)), np.zeros((3, 4)), (0, 3), np.arange(4, dtype=np.int32), np.random.rand(4, 3), ylm=np.zeros((4, 12, 4)))
+        finally:
+            SX.libcider = SX_lib
+            SX._get_ylm_atom_loc, SX._get_rf_loc = old[1], old[2]
+        want = R.T.reshape(-1)
+        return {"reproduced": bool(np.max(np.abs(got["mem"] - want)) > 0), "memory_passed_as_atomx": [float(x) for x in got["mem"]], "layout_read_by_C": [float(x) for x in want]}
+    return replay
+
+
 def unit_sdmx_grad(ctx):
     """SDMXylm_grad: component c of degree l+1 is accumulated from degree l of the values with the index pattern GRAD_PATTERN (all sizes)."""
     from contracts import c10
@@ -993,6 +1185,8 @@ def units():
     u.append(("sph-lemmas", unit_sph_lemmas(max(SPH_DEGREES))))
     u.append(("yzx2xyz", unit_yzx2xyz))
     u.append(("sdmx-grad", unit_sdmx_grad))
+    u.append(("sdmx-atom-layout", unit_sdmx_atom_layout))
+    u.append(("conv-expnts-locality", unit_conv_expnts_locality))
     u.append(("gaunt-table", unit_gaunt_table(8 if THOROUGH else 5)))
     for fwd, bwd, tabs in c05.INPLACE:
         u.append(("lp1/%s" % fwd, c05.unit_inplace(fwd, bwd, tabs)))
